@@ -23,6 +23,9 @@ var c20Doc = &mocrelay.NIP11{Name: "n", Description: "d <&>  ", SupportedNIPs:
 	Limitation: &mocrelay.NIP11Limitation{MaxFilters: 3},
 	Retention:  &mocrelay.NIP11Retention{Kinds: []*mocrelay.Nip11Kind{{From: 0, To: 0}, {From: 30000, To: 39999}}}}
 
+// further request headers of the next c20Route call (conditional / range requests must not change the answer)
+var c20Extra [][2]string
+
 func c20Route(upgrade, accept *string, hasNip11, hasDefault bool, more ...string) any {
 	mux := &mocrelay.ServeMux{Relay: mocrelay.NewRelay(mocrelay.NewDefaultHandler(), nil)}
 	if hasNip11 {
@@ -49,6 +52,11 @@ func c20Route(upgrade, accept *string, hasNip11, hasDefault bool, more ...string
 	if more == nil {
 		more = []string{}
 	}
+	extra := []any{}
+	for _, kv := range c20Extra {
+		req.Header.Set(kv[0], kv[1])
+		extra = append(extra, []any{kv[0], kv[1]})
+	}
 	rec := httptest.NewRecorder()
 	mux.ServeHTTP(rec, req)
 	res := rec.Result()
@@ -73,7 +81,7 @@ func c20Route(upgrade, accept *string, hasNip11, hasDefault bool, more ...string
 		ok := json.Valid(body) && json.Unmarshal(body, &back) == nil && docEqual(&back, c20Doc)
 		o["bodyEqualsConfig"] = ok
 	}
-	return M{"op": "route", "upgrade": up, "accept": ac, "upgradeSet": upgrade != nil, "acceptSet": accept != nil, "acceptMore": more,
+	return M{"op": "route", "upgrade": up, "accept": ac, "upgradeSet": upgrade != nil, "acceptSet": accept != nil, "acceptMore": more, "extra": extra,
 		"hasNip11": hasNip11, "hasDefault": hasDefault, "out": o}
 }
 
@@ -289,6 +297,20 @@ func init() {
 					}
 				}
 			}
+			// conditional, range and content-negotiation headers next to the Accept header: the answer stays the same
+			for _, ex := range [][2]string{{"Range", "bytes=0-0"}, {"Range", "bytes=1-"}, {"If-None-Match", "*"}, {"If-Match", "\"x\""},
+				{"If-Modified-Since", "Mon, 02 Jan 2006 15:04:05 GMT"}, {"If-Unmodified-Since", "Mon, 02 Jan 2006 15:04:05 GMT"}, {"If-Range", "\"x\""},
+				{"Accept-Encoding", "gzip"}, {"Origin", "https://example.com"}, {"Content-Type", "application/nostr+json"}, {"Connection", "Upgrade"}} {
+				c20Extra = [][2]string{ex}
+				for _, a := range []*string{sp("application/nostr+json"), sp("text/html"), nil} {
+					for _, hn := range []bool{false, true} {
+						for _, hd := range []bool{false, true} {
+							emit(c20Route(nil, a, hn, hd))
+						}
+					}
+				}
+			}
+			c20Extra = nil
 			for _, t := range kindTexts {
 				if l := c20KindParse(t); l != nil {
 					emit(l)
@@ -326,7 +348,16 @@ func init() {
 							more = append(more, str(x))
 						}
 					}
+					c20Extra = nil
+					if xl, ok := l["extra"].([]any); ok {
+						for _, x := range xl {
+							if kv, ok := x.([]any); ok && len(kv) == 2 {
+								c20Extra = append(c20Extra, [2]string{str(kv[0]), str(kv[1])})
+							}
+						}
+					}
 					emit(c20Route(u, a, hn, hd, more...))
+					c20Extra = nil
 				case "kind":
 					emit(c20Kind(int(jnum(l["from"])), int(jnum(l["to"]))))
 				case "kindparse":
